@@ -245,6 +245,8 @@ impl Hash for TrajState {
 pub struct TrajModel {
     params: Parameters,
     robot: OPWKinematics,
+    /// which continuation entry point is driven along the trajectory
+    entry: Entry,
     lo: [i8; 6],
     hi: [i8; 6],
     step: [f64; 6],
@@ -263,21 +265,29 @@ impl TrajModel {
     fn step_once(&self, prev: &Joints, target_node: &[i8; 6]) -> (u8, Joints) {
         let target = self.joints(target_node);
         let pose = to_na(&fkref::fk(&self.params, &target));
-        let sols = self.robot.inverse_continuing(&pose, prev);
+        let five = self.entry == Entry::Continuing5 || self.params.dof == 5;
+        let sols = match self.entry {
+            Entry::Continuing5 => self.robot.inverse_continuing_5dof(&pose, prev),
+            _ => self.robot.inverse_continuing(&pose, prev),
+        };
         self.transitions.fetch_add(1, std::sync::atomic::Ordering::Relaxed);
         let Some(first) = sols.first() else {
             return (2, target);
         };
-        if (0..6).all(|i| (first[i] - target[i]).abs() <= 1e-6) {
+        let upto = if five { 5 } else { 6 };
+        if five && first[5].to_bits() != prev[5].to_bits() {
+            return (1, *first); // J6 must be carried through unchanged
+        }
+        if (0..upto).all(|i| (first[i] - target[i]).abs() <= 1e-6) {
             return (0, *first);
         }
-        if joints_close_mod2pi(first, &target, 1e-6) {
+        if (0..upto).all(|i| circ_dist(first[i], target[i]) <= 1e-6) {
             return (1, *first); // same branch, wrong 2*pi representative
         }
         // another branch came first: legitimate only if it really is closer to prev than the target
         let near: Joints = std::array::from_fn(|i| prev[i] + wrap_pi(first[i] - prev[i]));
-        let c_other: f64 = (0..6).map(|i| (near[i] - prev[i]).abs()).sum();
-        let c_target: f64 = (0..6).map(|i| (target[i] - prev[i]).abs()).sum();
+        let c_other: f64 = (0..upto).map(|i| (near[i] - prev[i]).abs()).sum();
+        let c_target: f64 = (0..upto).map(|i| (target[i] - prev[i]).abs()).sum();
         if c_other < c_target {
             (3, *first)
         } else {
@@ -343,7 +353,9 @@ impl Model for TrajModel {
     }
 }
 
-fn traj_model(p: &Parameters, fine: bool) -> TrajModel {
+/// variant 0: 6-DOF continuation, no limits; 1: 6-DOF continuation under limits that contain the lattice (weight 0);
+/// 2: inverse_continuing_5dof on the 6-DOF robot; 3: the same geometry declared dof = 5, driven through inverse_continuing
+fn traj_model(p: &Parameters, fine: bool, variant: usize) -> TrajModel {
     // user-joint lattice: J4 and J6 cover almost +-2pi so representatives are exercised;
     // J5 is offset so that no node is wrist singular; J2/J3 keep the elbow bent.
     let d = PI / 180.0;
@@ -356,11 +368,27 @@ fn traj_model(p: &Parameters, fine: bool) -> TrajModel {
     let step5 = (j5(50.0 * d) - j5(35.0 * d)).abs();
     origin[3] = 0.0;
     origin[5] = 0.0;
+    let mut params = *p;
+    if variant == 3 {
+        params.dof = 5;
+    }
+    let five = variant >= 2;
+    let robot = if variant == 1 {
+        // limits wider than the lattice on every joint, centred off zero on J4 / J6
+        let from: Joints = std::array::from_fn(|i| origin[i] - if i == 3 || i == 5 { 6.0 } else { 1.0 });
+        let to: Joints = std::array::from_fn(|i| origin[i] + if i == 3 || i == 5 { 6.2 } else { 1.0 });
+        OPWKinematics::new_with_constraints(params, Constraints::new(from, to, 0.0))
+    } else {
+        OPWKinematics::new(params)
+    };
+    // in the 5-DOF variants J6 is carried through, so it is not a lattice axis
+    let n6 = if five { 0 } else { n4 };
     TrajModel {
-        params: *p,
-        robot: OPWKinematics::new(*p),
-        lo: [-1, -1, -1, -n4, -1, -n4],
-        hi: [1, 1, 1, n4, 1, n4],
+        params,
+        robot,
+        entry: if variant == 2 { Entry::Continuing5 } else { Entry::Continuing },
+        lo: [-1, -1, -1, -n4, -1, -n6],
+        hi: [1, 1, 1, n4, 1, n6],
         step: [10.0 * d, 10.0 * d, 10.0 * d, s4, step5, s4],
         origin,
         start: [0; 6],
@@ -370,10 +398,10 @@ fn traj_model(p: &Parameters, fine: bool) -> TrajModel {
     }
 }
 
-fn run_trajectories(p: &Parameters, fine: bool, rep: &mut Report, order: u64) {
+fn run_trajectories(p: &Parameters, fine: bool, variant: usize, rep: &mut Report, order: u64) {
     let mut counts = Vec::new();
     for _round in 0..2 {
-        let model = traj_model(p, fine);
+        let model = traj_model(p, fine, variant);
         let checker = model.checker().threads(16).spawn_bfs().join();
         let unique = checker.unique_state_count() as u64;
         let generated = checker.state_count() as u64;
@@ -384,7 +412,7 @@ fn run_trajectories(p: &Parameters, fine: bool, rep: &mut Report, order: u64) {
             rep.states += unique;
             rep.transitions += trans;
             rep.traces_validated += trans;
-            rep.sig(format!("trajectory-graph:{}", unique));
+            rep.sig(format!("trajectory-graph:variant{variant}:{}", unique));
             for (name, path) in checker.discoveries() {
                 let actions: Vec<Value> = path
                     .clone()
@@ -393,10 +421,10 @@ fn run_trajectories(p: &Parameters, fine: bool, rep: &mut Report, order: u64) {
                     .map(|a| json!({"joint": a.joint, "up": a.up}))
                     .collect();
                 let last = path.last_state().clone();
-                let case = json!({"kind": "trajectory", "params": params_json(p), "fine": fine, "moves": actions});
+                let case = json!({"kind": "trajectory", "params": params_json(p), "fine": fine, "variant": variant, "moves": actions});
                 if name == "tracks trajectory" {
                     rep.fail(
-                        format!("C04/trajectory-branch-switch/dof{}", p.dof),
+                        format!("C04/trajectory-branch-switch/{}", ["6dof", "6dof-with-limits", "5dof-entry", "dof5-robot"][variant]),
                         order,
                         case,
                         format!(
@@ -416,7 +444,7 @@ fn run_trajectories(p: &Parameters, fine: bool, rep: &mut Report, order: u64) {
                 rep.fail(
                     format!("C04/trajectory-path-dependence/dof{}", p.dof),
                     order,
-                    json!({"kind": "trajectory", "params": params_json(p), "fine": fine, "moves": []}),
+                    json!({"kind": "trajectory", "params": params_json(p), "fine": fine, "variant": variant, "moves": []}),
                     format!("{} nodes answer differently depending on the path; first: {d}", diffs.len()),
                 );
             }
@@ -429,9 +457,9 @@ fn run_trajectories(p: &Parameters, fine: bool, rep: &mut Report, order: u64) {
     rep.add_extra_count("trajectory_graph_generated_states", counts[0].1);
 }
 
-fn replay_trajectory(p: &Parameters, fine: bool, moves: &[Value]) -> Vec<String> {
+fn replay_trajectory(p: &Parameters, fine: bool, variant: usize, moves: &[Value]) -> Vec<String> {
     // plain replay without the explorer
-    let m = traj_model(p, fine);
+    let m = traj_model(p, fine, variant);
     let mut node = m.start;
     let mut prev = m.joints(&node);
     for (i, mv) in moves.iter().enumerate() {
@@ -499,14 +527,20 @@ pub fn run(ctx: &Ctx) -> Report {
         v
     };
     for (i, p) in traj_robots.iter().enumerate() {
-        run_trajectories(p, thorough, &mut rep, n + i as u64);
+        // every robot: the plain 6-DOF graph; the other variants rotate over the robots (all of them in the thorough tier)
+        run_trajectories(p, thorough, 0, &mut rep, n + i as u64);
+        for variant in 1..4 {
+            if thorough || variant == 1 + i % 3 {
+                run_trajectories(p, thorough, variant, &mut rep, n + 100 * variant as u64 + i as u64);
+            }
+        }
     }
     rep.rule = "E1: robots R (dof 5/6) x theta lattice x previous lattice in [-2pi,2pi]^6 (solution, +-turns, 7-value diagonals and rotations, \
                 CONSTRAINT_CENTERED) x limit sets {none, wide, window, wrapping, from==to} x weights {0,.25,.5,1} x {inverse_continuing, \
                 inverse_continuing_5dof}; oracle: |answer-previous| <= pi per joint, documented cost non-decreasing, every plain-inverse answer \
                 present, previous first when it realises the pose. E2 (stateright BFS, run twice): states = nodes of a 6-D joint lattice \
                 (J4/J6 across +-2pi), 12 single-joint moves, each transition calls inverse_continuing(FK_ref(next), previously returned \
-                vector); invariant: first answer is the trajectory point; differential: same node via two paths => same answer (1e-9)".into();
+                vector); invariant: first answer is the trajectory point; differential: same node via two paths => same answer (1e-9); graph variants: no limits, limits containing the lattice, inverse_continuing_5dof, a dof = 5 robot (J6 carried through)".into();
     rep.set("axes", json!({"robots": robots.len(), "theta_axis_sizes": ax.iter().map(|a| a.len()).collect::<Vec<_>>(),
         "trajectory_robots": traj_robots.len()}));
     rep.assumptions.push("trajectory state identity is the lattice node; returned vectors that agree within 1e-9 are merged (checked on every transition)".into());
@@ -516,7 +550,7 @@ pub fn run(ctx: &Ctx) -> Report {
 pub fn replay(case: &Value) -> Vec<String> {
     if case["kind"] == "trajectory" {
         let p = params_from_json(&case["params"]);
-        return replay_trajectory(&p, case["fine"].as_bool().unwrap_or(false), case["moves"].as_array().unwrap());
+        return replay_trajectory(&p, case["fine"].as_bool().unwrap_or(false), case["variant"].as_u64().unwrap_or(0) as usize, case["moves"].as_array().unwrap());
     }
     let c = Case::from_json(case);
     eval(&c).0.into_iter().map(|(k, d)| format!("{k}: {d}")).collect()
